@@ -187,12 +187,16 @@ Theorem C14_text_example : cfile_ok ex_file = true /\ cfile_abs ex_file = ex_tre
   cfile_abs (strip_file ex_file) = ex_tree /\ List.length (cf_items (strip_file ex_file)) = 4.
 Proof. exact ex_file_ok. Qed.
 Local Open Scope string_scope.
-(* FINDING (grammar): ID and ID_OR_EDGE exclude only the blank, so a newline or tab next to a name is lexed INTO the name: the instance of
-   `(INSTANCE u1` NEWLINE `)` is "u1\n" (its delays are then dropped with a warning by iopaths), `A<TAB>Z` is one pin *)
-Theorem C14_text_name_whitespace_refuted :
-  parse_sdf ("(DELAYFILE(CELL(INSTANCE u1" ++ nl1 ++ ")))") = Some [XSCell [XName ("u1" ++ nl1)]] /\
+(* D34 (fixed by d9c2c16): ID and ID_OR_EDGE end at any \s character, so a newline or tab next to a name is NOT lexed into the name: the
+   instance of `(INSTANCE u1` NEWLINE `)` is "u1" and its delays are kept, `A<TAB>Z` are two pins; every character the two ignore rules skip is \s *)
+Theorem C14_text_name_whitespace_ends_name :
+  parse_sdf ("(DELAYFILE(CELL(INSTANCE u1" ++ nl1 ++ ")))") = Some [XSCell [XName "u1"]] /\
   parse_sdf "(DELAYFILE(CELL(INSTANCE u1 )))" = Some [XSCell [XName "u1"]] /\
-  parse_sdf ("(DELAYFILE(CELL(DELAY(ABSOLUTE(IOPATH A" ++ String c_tab "Z (1:2:3))))))") = Some [XSCell [XDelay [XEntry true ("A" ++ String c_tab "Z") "(1:2:3)" []]]] /\
-  exists t, tree_of_text ("(DELAYFILE(CELL(DELAY(ABSOLUTE(IOPATH A" ++ String c_tab "Z (1:2:3))))))") = Some t /\ start_cb t = Err.
-Proof. exact name_whitespace_refuted. Qed.
+  parse_sdf ("(DELAYFILE(CELL(INSTANCE" ++ String c_tab "u1" ++ String c_cr nl1 ++ ")))") = Some [XSCell [XName "u1"]] /\
+  parse_sdf ("(DELAYFILE(CELL(DELAY(ABSOLUTE(IOPATH A" ++ String c_tab "Z (1:2:3))))))") = Some [XSCell [XDelay [XEntry true "A" "Z" [["1"; "2"; "3"]]]]] /\
+  (forall c, is_ws c = true -> ide_char c = false /\ id_char c = false) /\
+  (forall c, is_b1 c = true \/ c = c_nl \/ c = c_cr -> is_ws c = true) /\
+  exists t df, tree_of_text ("(DELAYFILE(CELL(INSTANCE u1" ++ nl1 ++ ")(DELAY(ABSOLUTE(IOPATH A" ++ String c_tab "Z (1:2:3))))))") = Some t /\
+               start_cb t = Ok df /\ map fst (df_cells df) = ["u1"].
+Proof. exact name_whitespace_ends_name. Qed.
 Local Close Scope string_scope.
